@@ -22,6 +22,7 @@ def main(argv=None):
     except ValueError:
         seed = 0
     try:
+        core.ol()  # bind `oneliner` to the tree under test before anything else can import it
         mod = importlib.import_module("vf.checks." + pid.lower())
         if a.replay:
             return mod.replay(json.load(open(a.replay, encoding="utf8")))
